@@ -5,7 +5,7 @@
     used is its value on ASCII ([ascii_ok]); the concrete table the model is
     evaluated with satisfies it ([C04_hypothesis_satisfiable]) and is compared
     with the toolchain's unicode package on every run. *)
-From Perf Require Import Base.Bytes Base.B64 Base.Utf8 Base.Unicode Model.Units Proofs.Units.
+From Perf Require Import Base.Bytes Base.B64 Base.Utf8 Base.Unicode Model.Units Model.UnitsSpec Model.UnitsMeta Proofs.Units Proofs.UnitsSpec Proofs.UnitsMeta.
 Local Open Scope N_scope.
 
 Definition ascii_ok (is_space : N -> bool) : Prop :=
@@ -56,7 +56,10 @@ Theorem C04_tidy_idempotent : forall is_space, ascii_ok is_space ->
 Proof. exact tidy_idempotent. Qed.
 Print Assumptions C04_tidy_idempotent.
 
-(** the whole reported value: unit, scaled value, original pair kept iff rewritten *)
+(** the whole reported value, in the code's evaluation order (unit = tokenwise
+    rewrite, value = v times the accumulated factor, original pair kept iff
+    rewritten).  This ties the model to the rewrite; the DECLARATIVE statement
+    of the value clause is [value_ok] below *)
 Theorem C04_reader_value_is_spec : forall is_space, ascii_ok is_space ->
   forall v u, read_value is_space v u = spec_value is_space v u.
 Proof. exact read_value_spec. Qed.
@@ -71,11 +74,85 @@ Theorem C04_orig_kept_iff_rewritten : forall is_space, ascii_ok is_space ->
 Proof. exact orig_kept_iff_rewritten. Qed.
 Print Assumptions C04_orig_kept_iff_rewritten.
 
+
+(** ** the declarative specification (Model/UnitsSpec.v), which is what the
+    executable judge [Corr.RunC04.prop_ok] checks on the real code's output:
+    unit = tokenwise rewrite; original pair kept iff rewritten; untouched when
+    nothing is to normalise; value = the REAL product v * 10^(6 #MB - 9 #ns) up
+    to [tol_ulps] units in the last place (no evaluation order prescribed),
+    NaN / zeros / infinities fixed.
+
+    Every clause but the value clause, for ALL values and units: *)
+Theorem C04_report_meets_spec_given_value_clause : forall is_space, ascii_ok is_space ->
+  forall (vj : b64 -> bytes -> b64 -> bool) v u,
+  vj v u (b64_mul v (spec_factor is_space u)) = true ->
+  let r := read_value is_space v u in
+  report_ok is_space vj v u (v_val r, v_unit r, v_oval r, v_ounit r) = true.
+Proof. exact report_ok_model. Qed.
+Print Assumptions C04_report_meets_spec_given_value_clause.
+
+(** the filter clause of the judge ([named]) is the model's [unit_match] *)
+Theorem C04_named_is_unit_match : forall is_space, ascii_ok is_space ->
+  forall (mt : bytes -> bool) v u,
+  unit_match mt (read_value is_space v u) = named is_space mt u.
+Proof. exact named_is_unit_match. Qed.
+Print Assumptions C04_named_is_unit_match.
+
+(** the value clause: NaN, for every unit *)
+Theorem C04_value_nan : forall is_space relax u,
+  value_ok is_space relax S754_nan u (b64_mul S754_nan (spec_factor is_space u)) = true.
+Proof. exact value_ok_nan. Qed.
+Print Assumptions C04_value_nan.
+
+(** the value clause: zeros and infinities, whenever the accumulated factor is
+    a finite positive non-zero number (satisfiable: [factor_hypothesis_satisfiable]) *)
+Theorem C04_value_zero_inf_partial : forall is_space u m e v,
+  spec_factor is_space u = S754_finite false m e ->
+  b64_is_zero v = true \/ b64_is_inf v = true ->
+  value_ok is_space false v u (b64_mul v (spec_factor is_space u)) = true.
+Proof. exact value_ok_zero_inf. Qed.
+Print Assumptions C04_value_zero_inf_partial.
+
+(** the value clause does NOT hold for all units (known finding
+    C04_scale_factor_out_of_range): with 52 "MB" numerator components the
+    accumulated factor is +Inf and the value 0 is reported as NaN; the relaxed
+    judge [value_ok .. true] of the finding accepts exactly that product.
+    More witnesses: [value_scaling_refuted_witnesses] (evaluated).
+    NOT proved: the value clause for finite non-zero values while the factor
+    stays in the normal range (a rounding-error bound of n+1 IEEE operations);
+    it is judged on every generated case instead. *)
+Theorem C04_value_scaling_refuted :
+  exists v u, value_ok go_is_space false v u (v_val (read_value go_is_space v u)) = false
+           /\ value_ok go_is_space true v u (v_val (read_value go_is_space v u)) = true.
+Proof. exact value_scaling_refuted. Qed.
+Print Assumptions C04_value_scaling_refuted.
+
 (** unit metadata is found whether the written or the base unit is named *)
 Theorem C04_metadata_lookup_either_unit : forall is_space, ascii_ok is_space ->
   forall m u k, units_get is_space m u k = units_get is_space m (fst (tidy_unit is_space u)) k.
 Proof. exact metadata_lookup_either_unit. Qed.
 Print Assumptions C04_metadata_lookup_either_unit.
+
+
+(** GetBetter and GetAssumption answer the same whether the written or the base
+    unit is named - with metadata and without (built-in defaults).  GetBetter
+    is modelled as REPAIRED (hooks/fix_c04_getbetter_default_tidied.diff) *)
+Theorem C04_get_better_either_unit : forall is_space, ascii_ok is_space ->
+  forall m u, get_better is_space m u = get_better is_space m (fst (tidy_unit is_space u)).
+Proof. exact get_better_either_unit. Qed.
+Print Assumptions C04_get_better_either_unit.
+
+Theorem C04_get_assumption_either_unit : forall is_space, ascii_ok is_space ->
+  forall m u, get_assume_exact is_space m u = get_assume_exact is_space m (fst (tidy_unit is_space u)).
+Proof. exact get_assume_either_unit. Qed.
+Print Assumptions C04_get_assumption_either_unit.
+
+(** before the repair the defaults were looked up by the unit as given:
+    GetBetter("MB/op") = 0, GetBetter("B/op") = -1 *)
+Theorem C04_get_better_old_refuted :
+  exists m u, get_better_old go_is_space m u <> get_better_old go_is_space m (fst (tidy_unit go_is_space u)).
+Proof. exact get_better_old_refuted. Qed.
+Print Assumptions C04_get_better_old_refuted.
 
 (** a [.unit] term keeps a value iff it matches the base unit or the written unit *)
 Theorem C04_unit_filter_either : forall is_space, ascii_ok is_space ->
